@@ -214,6 +214,14 @@ func runC09(w *World) {
 	}
 	shr := w.addActor(n, "127.0.0.1:50100", []Cmd{{Args: []string{"AOFSHRINK"}}})
 	shr.weight = 20
+	// in a third of the runs a second AOFSHRINK arrives while the first is (probably) still running:
+	// it is refused, and must leave the running rewrite alone
+	overlap := w.knob("overlap", 3) == 1
+	if overlap {
+		shrB := w.addActor(n, "127.0.0.1:50102", []Cmd{{Args: []string{"AOFSHRINK"}}})
+		shrB.weight = 2
+		w.stat("c09.runs_with_second_request", 1)
+	}
 	// disk errors: in some runs one write or sync of the (first) rewrite fails, as on a full disk.
 	// The rewrite must give up and leave the live log, the served dataset and later appends intact.
 	ioerr := w.knob("ioerr", 12) // 1..4 = failing operation, otherwise none
@@ -484,7 +492,7 @@ func runC09(w *World) {
 		w.nontriv = w.stats["probe.reached.shrink.swap.reopened"] > 0
 		if ioerr > 0 {
 			fired := w.stats["fault.io_error."+shrinkIOSites[ioerr-1]] > 0
-			if fired && hc.lm.gen > 0 {
+			if fired && hc.lm.gen > 0 && !overlap { // (a second request may legitimately rewrite after the failure)
 				w.violate("C09/ioerr", "the rewrite replaced the live log although its %s failed", shrinkIOSites[ioerr-1])
 				return
 			}
